@@ -219,7 +219,17 @@ func (c *Ctl) enabled() ([]entry, []string, []int) {
 		for _, a := range c.Actions() {
 			a := a
 			cost := a.Cost
-			if (curParked && !ps[0].free) || (c.StrictCost && len(es) > 0) {
+			if len(es) == 0 && cost > 0 {
+				// an action that is a deviation (a pause, an environment event placed early) is never the default: with no
+				// goroutine parked the controller idles / lets virtual time pass instead
+				continue
+			}
+			if c.StrictCost {
+				// strict model: every non-default choice costs exactly one deviation (an action's own cost is not added on top)
+				if len(es) > 0 && cost == 0 {
+					cost = 1
+				}
+			} else if curParked && !ps[0].free {
 				cost++
 			}
 			es = append(es, entry{act: &a})
